@@ -32,6 +32,13 @@ MONITORS = {
     "C04": {"bin": "mon_c04", "quick": 50000, "thorough": 3000000,
             "what": "real single-voter RawNode<MemStorage> under random proposals, synchronous and asynchronous Ready handling and late / repeated / stale "
                     "persistence notices (<= 17 ops): persisted index, the leader's own matched index and the commit index never exceed the last entry of the Readys reported durable"},
+    "C06": {"bin": "mon_c06", "quick": 50000, "thorough": 3000000,
+            "what": "real RawNode<MemStorage> (lone voter + learner, or three voters) under random campaigns, ticks, proposals, higher-term vote requests / heartbeats, "
+                    "vote responses to released requests, synchronous and asynchronous Readys and late persistence notices (<= 19 ops): every message is checked, at the "
+                    "moment it may be sent, against the hard state of the Readys reported persisted (term not ahead, vote grant matches the durable vote)"},
+    "C20": {"bin": "mon_c06", "args": ["--prop", "C20"], "quick": 50000, "thorough": 3000000,
+            "what": "the RawNode driver of mon_c06 (campaigns, ticks, proposals, higher-term messages, synchronous and asynchronous Readys, late notices; lone voter + learner "
+                    "or three voters; <= 19 ops) with only panics reported: no library call may panic under contract-abiding use"},
     "C11": {"bin": "mon_c11", "quick": 20000, "thorough": 600000,
             "what": "ProgressTracker::maximal_committed_index / tally_votes of the real crate vs the count-based quorum definitions, "
                     "voter sets of 1..10 members, joint configurations, group commit"},
@@ -80,7 +87,7 @@ def run_monitor(P, repo, seed, cases=None, replay_input=None, timeout=1200):
     exe, err = build(repo, mon["bin"])
     if exe is None:
         return {"status": "unavailable", "reason": err}
-    cmd = [exe, "--seed", str(seed)]
+    cmd = [exe, "--seed", str(seed)] + list(mon.get("args", []))
     if replay_input is not None:
         cmd += ["--replay", replay_input]
     elif cases:
